@@ -265,4 +265,6 @@ def run(ctx):
     r14_2_3(ctx)
     r14_4(ctx)
     r14_5(ctx)
+    from . import c10
+    c10.r10_4_units(ctx, modules=("mbox", "search"))
     ctx.trust("frozen: RFC 3501 6.4.4 search key list; operator table BEFORE< ON== SINCE>= SENTBEFORE< SENTON== SENTSINCE>= LARGER> SMALLER<")
